@@ -13,7 +13,6 @@ import (
 	"time"
 
 	"deps.dev/util/resolve"
-	scalibrfs "github.com/google/osv-scalibr/fs"
 	"github.com/google/osv-scalibr/guidedremediation/options"
 	"github.com/google/osv-scalibr/guidedremediation/result"
 	"github.com/google/osv-scalibr/guidedremediation/verifhooks"
@@ -128,8 +127,8 @@ func (r remOpts) build(levels universe.Levels) options.RemediationOptions {
 
 // allPatches is the proposal list of the strategy for the manifest file at path.
 func allPatches(w *universe.World, path string, ro options.RemediationOptions) ([]result.Patch, []string, error) {
-	return verifhooks.AllPatches(context.Background(), w.Scenario.Strategy(), w.Client, w.Matcher, w.System,
-		scalibrfs.DirFS(filepath.Dir(path)), filepath.Base(path), &ro, nil)
+	fsys, rel := universe.FSFor(path)
+	return verifhooks.AllPatches(context.Background(), w.Scenario.Strategy(), w.Client, w.Matcher, w.System, fsys, rel, &ro, nil)
 }
 
 // reqLine is one requirement as read back by scalibr's reader.
@@ -139,7 +138,8 @@ type reqLine struct {
 }
 
 func readRequirements(w *universe.World, path string) ([]reqLine, error) {
-	reqs, err := verifhooks.ReadManifest(w.System, scalibrfs.DirFS(filepath.Dir(path)), filepath.Base(path))
+	fsys, rel := universe.FSFor(path)
+	reqs, err := verifhooks.ReadManifest(w.System, fsys, rel)
 	if err != nil {
 		return nil, err
 	}
@@ -172,6 +172,50 @@ func copyFile(src, dstDir string) (string, error) {
 	}
 	dst := filepath.Join(dstDir, filepath.Base(src))
 	return dst, os.WriteFile(dst, b, 0o644)
+}
+
+// manifestRoot is the directory a manifest model was written into, given the path of its
+// manifest file (World.WriteManifest): the directory that holds every file of the manifest.
+func manifestRoot(m universe.Manifest, path string) string {
+	return strings.TrimSuffix(filepath.ToSlash(path), "/"+m.RelPath())
+}
+
+// copyManifest copies every file below the directory the manifest was written into (the
+// manifest and, for a pom.xml with local parents, the parent poms: whatever is on disk after
+// a run) into dstDir and returns the path of the copy of the manifest file.
+func copyManifest(m universe.Manifest, path, dstDir string) (string, error) {
+	root := manifestRoot(m, path)
+	err := filepath.WalkDir(root, func(p string, d os.DirEntry, err error) error {
+		if err != nil || d.IsDir() {
+			return err
+		}
+		rel, err := filepath.Rel(root, p)
+		if err != nil {
+			return err
+		}
+		_, err = copyFile(p, filepath.Dir(filepath.Join(dstDir, rel)))
+		return err
+	})
+	return filepath.Join(dstDir, filepath.FromSlash(m.RelPath())), err
+}
+
+// dumpManifest prints every file below the directory the manifest was written into.
+func dumpManifest(m universe.Manifest, path string) string {
+	root := manifestRoot(m, path)
+	var b strings.Builder
+	_ = filepath.WalkDir(root, func(p string, d os.DirEntry, err error) error {
+		if err != nil || d.IsDir() {
+			return nil
+		}
+		rel, _ := filepath.Rel(root, p)
+		data, _ := os.ReadFile(p)
+		if m.Chain != nil {
+			fmt.Fprintf(&b, "== %s\n", filepath.ToSlash(rel))
+		}
+		b.Write(data)
+		return nil
+	})
+	return b.String()
 }
 
 // prefixed returns the class labels of a case, each prefixed with the driver, plus the
@@ -477,5 +521,47 @@ func honourDepMgmtClass(col *ev.Collector, prefix string, m *universe.Manifest) 
 	if cls := prefix + "." + clsDepMgmtDiffer; col.IsKnown(cls) {
 		col.Excluded(cls)
 		suppressDepMgmtDiffer(m)
+	}
+}
+
+// Class maven_chain_management_nearer_than_dependency (C12): a Maven manifest with local parent
+// poms declares a package in <dependencyManagement> of one pom of the chain and in
+// <dependencies> of a pom further up (same requirement; different requirements are class
+// maven_dep_and_management_differ). The writer maps the single reported update to the first
+// declaration its parent walk meets (the dependencyManagement entry) and leaves the inherited
+// dependency's explicit version alone.
+const clsChainMgmtNearer = "maven_chain_management_nearer_than_dependency"
+
+func chainMgmtNearer(m universe.Manifest) bool {
+	if m.Chain == nil {
+		return false
+	}
+	for _, d := range m.Deps {
+		for _, g := range m.Management {
+			if d.Name == g.Name && g.Level < d.Level {
+				return true
+			}
+		}
+	}
+	return false
+}
+
+// honourChainMgmtNearer suppresses the class by declaring the dependencyManagement entry in the
+// pom that declares the dependency (the package stays in both sections).
+func honourChainMgmtNearer(col *ev.Collector, prefix string, m *universe.Manifest) {
+	if col == nil || !chainMgmtNearer(*m) {
+		return
+	}
+	cls := prefix + "." + clsChainMgmtNearer
+	if !col.IsKnown(cls) {
+		return
+	}
+	col.Excluded(cls)
+	for _, d := range m.Deps {
+		for i, g := range m.Management {
+			if d.Name == g.Name && g.Level < d.Level {
+				m.Management[i].Level = d.Level
+			}
+		}
 	}
 }
